@@ -214,5 +214,37 @@ func opLongChain() error {
 			emit(map[string]any{"ev": "getheaders", "tip": n, "loc": locHs, "stop": stopH, "cap": 2000, "first": f2, "count": len(hp), "linked": linked, "allLongest": allL})
 		}
 	}
+	// C04 at distances the small models cannot reach: the ancestors of a longest-chain header down to another one far below it
+	// (Chain.tla: Ancestors(a, b) = PathDown(a, b), on a linear chain the a-b+1 headers of heights b..a, parent-linked)
+	for _, pr := range [][2]int{{n, n - 1}, {n, n - 1999}, {n, n - 2000}, {n, n - 2001}, {n, n - 2002}, {n, 1}, {n - 1, 50}, {2500, 400}, {2 + rng.Intn(n-2), 1}} {
+		if pr[1] < 1 || pr[0] <= pr[1] || pr[0] > n {
+			continue
+		}
+		code, body := rp.S.HTTP("GET", "/api/v1/chain/header/"+c.HashOf(pr[0])+"/"+c.HashOf(pr[1])+"/ancestor", nil, nil)
+		var hs []hdrJSON
+		lo, hi, linked := -1, -1, true
+		if code == 200 && json.Unmarshal(body, &hs) == nil {
+			prev := -1
+			for i, h := range hs {
+				hh, err := chainhash.NewHashFromStr(h.Hash)
+				if err != nil {
+					linked = false
+					continue
+				}
+				id := idOf(*hh)
+				if lo == -1 || id < lo {
+					lo = id
+				}
+				if id > hi {
+					hi = id
+				}
+				if i > 0 && id != prev+1 && id != prev-1 {
+					linked = false
+				}
+				prev = id
+			}
+		}
+		emit(map[string]any{"ev": "ancestors", "a": pr[0], "b": pr[1], "code": code, "count": len(hs), "lo": lo, "hi": hi, "linked": linked})
+	}
 	return nil
 }
